@@ -1,7 +1,7 @@
 (* C07 — property theorems about the model of VariationModel (FV.C07.Model).
    Statements only; the proofs are in Tents, Trim, Influence, Deltas, Main. *)
 From Coq Require Import List ZArith QArith Qabs Bool Sorting.Permutation.
-From FV.C07 Require Import Model Tents Trim Influence Deltas Main.
+From FV.C07 Require Import Model Tents Trim Influence Deltas Main OrderIndep.
 Import ListNotations.
 
 (* Input: any finite set of distinct locations with one (scaled integer)
@@ -102,6 +102,14 @@ Print Assumptions default_exact.
 Theorem default_exact_integer : forall z : Z, apply_rounding true (inject_Z z) = inject_Z z.
 Proof. intro z. unfold apply_rounding. rewrite round_ties_even_int. reflexivity. Qed.
 Print Assumptions default_exact_integer.
+
+(* 8. The result does not depend on the order in which the masters are supplied (nor, therefore, on
+      HashSet iteration order): the whole model - sorted locations, regions, influence, delta weights -
+      is the same for every permutation of the input. *)
+Theorem result_independent_of_supply_order : forall n locs locs',
+  Forall (fun l => length l = n) locs -> Permutation locs locs' -> model_new locs' = model_new locs.
+Proof. exact model_order_independent. Qed.
+Print Assumptions result_independent_of_supply_order.
 
 (* the hypotheses are satisfiable by a non-trivial layout (two axes, corner,
    on-axis and interior masters) *)
